@@ -92,7 +92,7 @@ class _Collector:
             if cur is None or order < cur[0]:
                 self.fails[key] = (order, f)
         for s in other['samples']:
-            if len(self.samples) < 3:
+            if len(self.samples) < 3 and all(x.split(':')[0] != s.split(':')[0] for x in self.samples):
                 self.samples.append(s)
 
     def export(self):
@@ -407,6 +407,10 @@ C_R_WARNNONE = 'results whose optional warnings attribute is unset (None, the Mo
 C_R_LRTDF = 'the LRT degrees of freedom are the difference in the number of ESTIMATED parameters (a FIXed parameter adds no degree of freedom)'
 
 
+RANK_CLAUSE_FID = {C_R_LRTDF: 'src/pharmpy/modeling/lrt.py:degrees_of_freedom', C_R_STRNONE: FID_STRICT,
+                   C_R_WARNNONE: FID_STRICT}
+
+
 def _rank_check(inp):
     """returns list of (clause, detail); empty when all clauses hold"""
     out, mutated = _rank_call(inp)
@@ -529,9 +533,9 @@ def _rank_domain(tier):
             for ms in _multisets(opts, n):
                 yield [list(c) for c in ms]
 
-    # (a) ofv / aic: all multisets of <= kmax candidates
-    for rt in ('ofv', 'aic'):
-        for cands in sets_upto(kmax):
+    # (a) ofv: all multisets of <= kmax candidates; aic: <= kmax-1
+    for rt, km in (('ofv', kmax), ('aic', kmax - 1)):
+        for cands in sets_upto(km):
             for b in range(nst):
                 for cutoff in (None, 3.84):
                     for pens in (None, pen_for(len(cands))):
@@ -544,8 +548,9 @@ def _rank_domain(tier):
                     for pens in (None, pen_for(len(cands))):
                         dom.append(dict(base=b, cands=cands, rank_type='bic', bic_type=bt, cutoff=cutoff,
                                         penalties=pens))
-    # (c) mixed BIC (expensive): <= 1 candidate with all options, 2 candidates with eligible base
-    for cands in sets_upto(kmax - 1):
+    # (c) mixed BIC (expensive): <= 1 candidate with all options, 2 candidates with eligible base only
+    #     (thorough: 2 candidates with all options)
+    for cands in sets_upto(2):
         for b in range(nst):
             for cutoff in (None, 3.84):
                 for pens in (None, pen_for(len(cands))):
@@ -570,7 +575,10 @@ def _rank_domain(tier):
     for n in range(3, kmax + 1):
         for cands in _multisets(opts, n):
             cands = [list(c) for c in cands]
-            for pm in itertools.product(*[range(0, i + 1) for i in range(n)]):
+            pmaps = list(itertools.product(*[range(0, i + 1) for i in range(n)]))
+            if n > 3:
+                pmaps = [tuple([0] * n), tuple(range(n))]      # all children of the base / one chain
+            for pm in pmaps:
                 for b in range(nst):
                     dom.append(dict(base=b, cands=cands, rank_type='lrt', cutoff=None, penalties=None,
                                     parents=list(pm)))
@@ -823,7 +831,7 @@ def _sr_build(spec):
         rse[GROUP_PICK[g]] = spec['rse'][g]
         if spec['grad'][g] == 'zero':
             grad[GROUP_PICK[g]] = 0.0
-        elif spec['grad'][g] == 'nan':
+        elif spec['grad'][g] == 'isnan':
             grad[GROUP_PICK[g]] = NAN
     est = dict(FAR_EST)
     for key in spec['near']:
@@ -905,7 +913,7 @@ def _strict_inputs(tier):
         for tc in (None, 'rounding_errors', 'maxevals_exceeded'):
             for a in ('minimization_successful', 'rounding_errors', 'maxevals_exceeded'):
                 dom.append(dict(kind='atom', atom=a, spec=spec(ms=ms, tc=tc)))
-    for gt, go, gs in itertools.product(('ok', 'zero', 'nan'), repeat=3):
+    for gt, go, gs in itertools.product(('ok', 'zero', 'isnan'), repeat=3):
         for order in ('model', 'reversed'):
             for a in ('final_zero_gradient', 'final_zero_gradient_theta', 'final_zero_gradient_omega',
                       'final_zero_gradient_sigma'):
@@ -1066,10 +1074,12 @@ def bounded_rank_models(tier):
     for part in _pool_map(_misc_worker, misc):
         col.merge(part)
     kmax = 4 if tier == 'thorough' else 3
+    extra = ' and of 4 candidates x star/chain parent maps' if kmax > 3 else ''
     bound = (f'rank_models: base (pheno, 5 result statuses: OFV -10/0/5/NaN ok, -10 failed) + all multisets of <= {kmax} '
-             f'candidates from 5 pheno variants (parameter-count differences -1,0,0,+1,+2) x 5 statuses for ofv/aic, '
-             f'<= {kmax - 1} for bic fixed/random/iiv/mixed, cut-off None/3.84, penalties None/list; lrt: all ordered '
-             f'<= 2 candidates x every parent map x p None/0.05/(0.05,0.01), multisets of 3..{kmax} candidates x every parent-among-earlier map (default p-values); '
+             f'candidates from 5 pheno variants (parameter-count differences -1,0,0,+1,+2) x 5 statuses for ofv, '
+             f'<= {kmax - 1} for aic and bic fixed/random/iiv, <= 2 for bic mixed, cut-off None/3.84, penalties None/list; lrt: all ordered '
+             f'<= 2 candidates x every parent map x p None/0.05/(0.05,0.01), multisets of 3 candidates x every '
+             f'parent-among-earlier map{extra} (default p-values); '
              f'strictness ""/AMD default with 6 statuses; calculate_aic/bic on 10 variants x 3 OFVs; lrt functions on all '
              f'25 parent/child pairs x 3 alphas x 25 OFV pairs, best_of_many <= {3 if tier == "thorough" else 2} children '
              f'x 5 OFVs each; is_strictness_fulfilled: all 17 documented atoms x 6 operators on synthetic results grids')
@@ -1091,8 +1101,8 @@ def _rank_worker_indexed(task):
         if len(col.samples) < 1 and n == 11:
             col.samples.append('rank:' + json.dumps(_js(inp))[:200])
         for clause, detail in fails:
-            col.fail((len(inp['cands']), i), FID_RANK, clause, detail + ' | input ' + json.dumps(_js(inp)),
-                     'rank', inp, 'bounded_rank_models_replay')
+            col.fail((len(inp['cands']), i), RANK_CLAUSE_FID.get(clause, FID_RANK), clause,
+                     detail + ' | input ' + json.dumps(_js(inp)), 'rank', inp, 'bounded_rank_models_replay')
     return col.export()
 
 
@@ -1348,7 +1358,8 @@ C_K_NAME = 'Cook score matches estimates and covariance by parameter NAME when b
 C_J_FORM = 'jackknife covariance_{j,k} = (N-1)/N * sum_i (p_ij - mean_j)(p_ik - mean_k), labelled by parameter'
 C_CR_FORM = 'covariance ratio_i = sqrt(det(cov(P_i)) / det(cov(P_orig))), NaN for a case without results or covariance matrix'
 C_CDD_EXC = 'cdd calculate_results raises no exception when the base model has results'
-C_CDD_COOK = 'case_results.cook_score follows the Cook score formula (by parameter NAME), NaN for a case without results'
+C_CDD_COOK = 'case_results.cook_score follows the Cook score formula, NaN for a case without results (all labels in the same order)'
+C_CDD_COOK_NAME = 'case_results.cook_score matches base estimates, case estimates and covariance matrix by parameter NAME when they list the labels in different orders'
 C_CDD_JACK = 'case_results.jackknife_cook_score is the Cook score under the jackknife covariance matrix'
 C_CDD_DOFV = 'case_results.delta_ofv = OFV_all - sum of iOFV of the skipped individuals - OFV_k'
 C_CDD_CRAT = 'case_results.covariance_ratio follows the covariance ratio formula'
@@ -1566,7 +1577,7 @@ def _cdd_check(inp):
         w = cook[k] if k in present else NAN
         g = cr['cook_score'].iloc[k]
         if not _close(g, w):
-            add(C_CDD_COOK, f'case {k + 1}: got {g}, formula {w}')
+            add(C_CDD_COOK_NAME if permuted else C_CDD_COOK, f'case {k + 1}: got {g}, formula {w}')
         tot = sum(CDD_IOFV.values()) - sum(CDD_IOFV[i] for i in skipped[k])
         w = tot - CDD_OFVK[k] if k in present else NAN
         g = cr['delta_ofv'].iloc[k]
@@ -2083,9 +2094,8 @@ def _ext_check(inp):
             if isinstance(got, Exception):
                 add(FID_EXT + '.' + sub, clause, f"table {s['number']}: raised {type(got).__name__}: {got}")
             elif post == 'bool':
-                if sorted(got.index) != sorted(want) or any(bool(got[k]) != (v != 0) or not isinstance(got[k], (bool,)) and
-                                                             type(got[k]).__name__ not in ('bool', 'bool_', 'bool')
-                                                             for k, v in want.items()):
+                if sorted(got.index) != sorted(want) or any(
+                        type(got[k]).__name__ not in ('bool', 'bool_') or bool(got[k]) != (v != 0) for k, v in want.items()):
                     add(FID_EXT + '.' + sub, clause, f"table {s['number']}: got {got.to_dict()}, row {code}: {want}")
             elif not _series_eq(got, want):
                 add(FID_EXT + '.' + sub, clause, f"table {s['number']}: got {got.to_dict()}, row {code}: {want}")
